@@ -643,3 +643,69 @@ pub fn add_unrequested_soft_packages(rng: &mut Rng, w: &mut World, p: &mut Probl
         }
     }
 }
+
+
+/// A "forest": k small independent worlds over disjoint id ranges merged into one, the root problem being the
+/// concatenation of their root problems. One solve then runs through many decisions, conflicts, learnt clauses
+/// and restarts (long trails; size boundaries that small universes never reach).
+pub fn gen_forest(rng: &mut Rng, p: &GenParams, k: usize, sat_bias: bool) -> (World, ProblemSpec) {
+    let mut w = World::default();
+    let mut problem = ProblemSpec::default();
+    let mut small = p.clone();
+    small.id_weights = [1, 0, 0];
+    small.max_packages = small.max_packages.min(5);
+    small.max_solvables = 16;
+    small.max_root_reqs = small.max_root_reqs.min(2);
+    let (mut on, mut os, mut ov, mut ou, mut ot) = (0u32, 0u32, 0u32, 0u32, 0u32);
+    let mut made = 0;
+    let mut attempts = 0;
+    while made < k && attempts < 6 * k {
+        attempts += 1;
+        let (mut sw, mut sp) = gen_world(rng, &small, 1);
+        // mostly satisfiable components (an unsatisfiable one ends the whole solve at its first conflict)
+        if sat_bias {
+            let hard = ProblemSpec {
+                requirements: sp[0].requirements.clone(),
+                constraints: sp[0].constraints.clone(),
+                soft: vec![],
+            };
+            let sat = crate::reference::ref_solve(&sw, &hard, &[], crate::reference::Leniency::Strict);
+            if !matches!(sat, crate::reference::Sat::Sat(_)) && !rng.chance(1, 4 * k) {
+                continue;
+            }
+        }
+        made += 1;
+        let names: Vec<u32> = sw.packages.keys().copied().collect();
+        let solv: Vec<u32> = sw.solvables.keys().copied().collect();
+        let vss: Vec<u32> = sw.version_sets.keys().copied().collect();
+        let uns: Vec<u32> = sw.unions.keys().copied().collect();
+        let mut strs: BTreeSet<u32> = BTreeSet::new();
+        for pk in sw.packages.values() {
+            for (_, r) in &pk.excluded {
+                strs.insert(*r);
+            }
+        }
+        for sv in sw.solvables.values() {
+            if let Deps::Unknown(r) = sv.deps {
+                strs.insert(r);
+            }
+        }
+        let shift = |ids: &[u32], off: u32| -> BTreeMap<u32, u32> { ids.iter().map(|x| (*x, *x + off)).collect() };
+        let strs_v: Vec<u32> = strs.iter().copied().collect();
+        let (mn, ms, mv, mu, mt) = (shift(&names, on), shift(&solv, os), shift(&vss, ov), shift(&uns, ou), shift(&strs_v, ot));
+        apply_maps(&mut sw, &mut sp, &mn, &ms, &mv, &mu, &mt);
+        on += names.iter().max().map(|m| m + 1).unwrap_or(0);
+        os += solv.iter().max().map(|m| m + 1).unwrap_or(0);
+        ov += vss.iter().max().map(|m| m + 1).unwrap_or(0);
+        ou += uns.iter().max().map(|m| m + 1).unwrap_or(0);
+        ot += strs_v.iter().max().map(|m| m + 1).unwrap_or(0);
+        w.packages.extend(sw.packages);
+        w.solvables.extend(sw.solvables);
+        w.version_sets.extend(sw.version_sets);
+        w.unions.extend(sw.unions);
+        let sp = sp.remove(0);
+        problem.requirements.extend(sp.requirements);
+        problem.constraints.extend(sp.constraints);
+    }
+    (w, problem)
+}
